@@ -237,8 +237,7 @@ theorem C08_density_maps_planck (f T : ℝ) (hf : 0 < f) (hT : 0 < T) :
     · simp only [perfrequency2perwavenumber] <;> ring
     · simp only [perfrequency2perwavenumber, frequency2wavenumber]
 
-/-- reversing the grid twice restores it (the `[::-1]` of both directions) -/
-theorem C08_reverse_reverse (l : List ℝ) : l.reverse.reverse = l := List.reverse_reverse l
+-- (the `[::-1]` reversal of the grids is array glue: exercised by the harness on real arrays)
 
 /-! ## Snell and Fresnel (real refractive indices) -/
 
@@ -270,29 +269,37 @@ private theorem cos_snell_nonneg (n1 n2 θ1 : ℝ) :
   rw [deg_rad]
   exact Real.cos_arcsin_nonneg _
 
-/-- |Rv|, |Rh| ≤ 1 for real positive indices and incidence angles in [0°, 90°] -/
+/-- |Rv|, |Rh| ≤ 1 for real positive indices, incidence angles in [0°, 90°) and no total
+reflection (`n₁ sin θ₁ ≤ n₂`; beyond it the real code returns NaN).  Under these guards both
+denominators are strictly positive, so no `x / 0 = 0` is involved. -/
 theorem C08_fresnel_le_one (n1 n2 θ1 : ℝ) (hn1 : 0 < n1) (hn2 : 0 < n2)
-    (hθ0 : 0 ≤ θ1) (hθ1 : θ1 ≤ 90) :
-    |(fresnel n1 n2 θ1).1| ≤ 1 ∧ |(fresnel n1 n2 θ1).2| ≤ 1 := by
-  have hc1 : 0 ≤ Real.cos (θ1 * (Real.pi / 180)) := by
-    apply Real.cos_nonneg_of_neg_pi_div_two_le_of_le
+    (hθ0 : 0 ≤ θ1) (hθ1 : θ1 < 90)
+    (_hnt : n1 * Real.sin (θ1 * (Real.pi / 180)) ≤ n2) :
+    |(fresnel n1 n2 θ1).1| ≤ 1 ∧ |(fresnel n1 n2 θ1).2| ≤ 1 ∧
+    0 < n2 * Real.cos (θ1 * (Real.pi / 180)) + n1 * Real.cos (snell n1 n2 θ1 * (Real.pi / 180)) ∧
+    0 < n1 * Real.cos (θ1 * (Real.pi / 180)) + n2 * Real.cos (snell n1 n2 θ1 * (Real.pi / 180)) := by
+  have hc1 : 0 < Real.cos (θ1 * (Real.pi / 180)) := by
+    apply Real.cos_pos_of_mem_Ioo
+    constructor
     · have := Real.pi_pos; nlinarith
     · have := Real.pi_pos; nlinarith
   have hc2 := cos_snell_nonneg n1 n2 θ1
   simp only [fresnel]
   set a := Real.cos (θ1 * (Real.pi / 180))
   set b := Real.cos (snell n1 n2 θ1 * (Real.pi / 180))
-  have key : ∀ u v : ℝ, 0 ≤ u → 0 ≤ v → |(u - v) / (u + v)| ≤ 1 := by
-    intro u v hu hv
-    rcases eq_or_lt_of_le (add_nonneg hu hv) with h0 | hpos
-    · rw [← h0]; simp
-    · rw [abs_div, abs_of_pos hpos, div_le_one hpos, abs_le]
-      constructor <;> linarith
-  exact ⟨key _ _ (by positivity) (by positivity), key _ _ (by positivity) (by positivity)⟩
+  have key : ∀ u v : ℝ, 0 ≤ u → 0 ≤ v → 0 < u + v → |(u - v) / (u + v)| ≤ 1 := by
+    intro u v hu hv hpos
+    rw [abs_div, abs_of_pos hpos, div_le_one hpos, abs_le]
+    constructor <;> linarith
+  have hd1 : 0 < n2 * a + n1 * b := by positivity
+  have hd2 : 0 < n1 * a + n2 * b := by positivity
+  exact ⟨key _ _ (by positivity) (by positivity) hd1, key _ _ (by positivity) (by positivity) hd2,
+    hd1, hd2⟩
 
-/-- at normal incidence |Rv| = |Rh| -/
-theorem C08_fresnel_normal (n1 n2 : ℝ) :
-    |(fresnel n1 n2 0).1| = |(fresnel n1 n2 0).2| := by
+/-- at normal incidence |Rv| = |Rh| (positive indices: the common denominator is non-zero) -/
+theorem C08_fresnel_normal (n1 n2 : ℝ) (hn1 : 0 < n1) (hn2 : 0 < n2) :
+    |(fresnel n1 n2 0).1| = |(fresnel n1 n2 0).2| ∧ n1 + n2 ≠ 0 := by
+  refine ⟨?_, by positivity⟩
   simp only [fresnel, snell, zero_mul, Real.sin_zero, mul_zero, zero_div, Real.arcsin_zero,
     Real.cos_zero, mul_one]
   rw [show (n1 - n2) / (n1 + n2) = -((n2 - n1) / (n2 + n1)) by
@@ -330,11 +337,11 @@ theorem C08_brewster (n1 n2 : ℝ) (hn1 : 0 < n1) (hn2 : 0 < n2) :
 /-! ## Non-vacuity -/
 example : (0 : ℝ) < 1e11 ∧ (0 : ℝ) < 250 := by norm_num
 example : |(1 : ℝ) * Real.sin (0 * (Real.pi / 180))| ≤ 1.5 := by simp; norm_num
-example : (0 : ℝ) ≤ 45 ∧ (45 : ℝ) ≤ 90 := by norm_num
+example : (0 : ℝ) ≤ 45 ∧ (45 : ℝ) < 90 := by norm_num
 
 assert_axioms C08_planck_pos C08_planckTb_inverse C08_rjTb_inverse C08_planck_strictMono_T
   C08_planck_le_rj C08_planck_rj_ratio C08_planck_rj_limit C08_wavelength_form
   C08_wavenumber_form C08_unit_converters_inverse C08_unit_converters_consistent
   C08_density_wavelength_inverse C08_density_wavenumber_inverse C08_density_maps_planck
-  C08_reverse_reverse C08_snell_law C08_snell_guard C08_fresnel_le_one C08_fresnel_normal
+  C08_snell_law C08_snell_guard C08_fresnel_le_one C08_fresnel_normal
   C08_brewster
